@@ -354,6 +354,20 @@ Definition ultrametric (m : dmat) : Prop :=
   forall i j k, i < msize m -> j < msize m -> k < msize m -> i <> j -> j <> k -> i <> k ->
     (cell O (mcells m) i k <= cell O (mcells m) i j \/ cell O (mcells m) i k <= cell O (mcells m) j k)%Qc.
 
+(* the same with a maximum instead of the disjunction *)
+Definition Qcmax (x y : Qc) : Qc := if Qclt_le_dec x y then y else x.
+
+Lemma ultrametric_max (m : dmat) :
+  ultrametric m <->
+  forall i j k, i < msize m -> j < msize m -> k < msize m -> i <> j -> j <> k -> i <> k ->
+    (cell O (mcells m) i k <= Qcmax (cell O (mcells m) i j) (cell O (mcells m) j k))%Qc.
+Proof.
+  unfold ultrametric, Qcmax. split; intros H i j k Hi Hj Hk Hij Hjk Hik; specialize (H i j k Hi Hj Hk Hij Hjk Hik);
+    destruct (Qclt_le_dec (cell O (mcells m) i j) (cell O (mcells m) j k)) as [Hlt|Hle]; auto.
+  - destruct H as [H|H]; auto. eapply Qcle_trans; [exact H|apply Qclt_le_weak; exact Hlt].
+  - destruct H as [H|H]; auto. eapply Qcle_trans; [exact H|exact Hle].
+Qed.
+
 Theorem upgma_ultra_inv (m : dmat) s :
   upgma_pre (FinB B) m -> ultrametric m -> ureach O m s ->
   exists mem, MInvA B (mcells m) (msize m) s mem /\ MInvU B (mcells m) (msize m) s mem.
@@ -545,6 +559,8 @@ End UltraDistance.
 (* ================================================================================================== *)
 Definition qz (z : Z) : Qc := Q2Qc (inject_Z z).
 Definition ex_taxa : list str := [[97%N]; [98%N]; [99%N]; [100%N]].
+Lemma Ok_inj {A} (x y : A) : Ok x = Ok y -> x = y.
+Proof. intros [= E]. exact E. Qed.
 Definition dist_val {A} (o : outcome (option Qc * A)) : option Q :=
   match o with Ok (Some v, _) => Some (this v) | _ => None end.
 
@@ -619,8 +635,8 @@ Example nonultra_get_distance_refuted :
   forall t, upgma (QcOps (qz 100)) ex_bad = Ok t ->
     ~ exists k, get_distance (QcOps (qz 100)) t 1 3 = Ok (Some (cell (QcOps (qz 100)) (mcells ex_bad) 0 2), k).
 Proof.
-  intros t Ht (k & Hk). rewrite nonultra_tree in Ht. injection Ht as <-.
-  destruct nonultra_distance as [E1 E2]. rewrite Hk in E1. simpl dist_val in E1. rewrite E2 in E1. discriminate.
+  intros t Ht (k & Hk). rewrite nonultra_tree in Ht. apply Ok_inj in Ht. subst t.
+  destruct nonultra_distance as [E1 E2]. rewrite Hk in E1. unfold dist_val in E1. rewrite E2 in E1. discriminate.
 Qed.
 
 Example nonultra_lca_refuted :
@@ -643,7 +659,7 @@ Example nonultra_reproduces_refuted :
 Proof.
   intros t Ht (a & d1 & d2 & ci & cj & _ & _ & _ & E1 & E2 & Hc & V1 & V2).
   apply (nonultra_lca_refuted t Ht). exists a.
-  eapply reproduces_lca_wit; eauto.
+  exact (reproduces_lca_wit (qz 100) (mcells ex_bad) t 0 2 a d1 d2 ci cj E1 E2 Hc V1 V2).
 Qed.
 
 (* ---- audit ------------------------------------------------------------------------------------------ *)
